@@ -1080,6 +1080,14 @@ def check_case(case):  # pylint: disable=too-many-return-statements
         return list(_judge_carrier(_cat('carrier')[case['space']], case.get('template', 0), case['code']))
     if kind == 'list':
         return list(_judge_list(_cat('list')[case['space']], list(case['codes']))[0])
+    if kind == 'list-history':
+        # the same number met as an unknown code in a code space of the other width earlier in the process: what a
+        # list decodes to does not depend on what was parsed before
+        findings = []
+        for step, (space, codes) in enumerate(case['steps']):
+            for finding in _judge_list(_cat('list')[space], list(codes))[0]:
+                findings.append(Finding('%s:history' % finding.key, dict(finding.detail, step=step, steps=case['steps'])))
+        return findings
     if kind == 'names':
         return list(_judge_name_list(_cat('names')[case['space']], list(case['names']))[0])
     if kind == 'string':
@@ -1362,8 +1370,39 @@ def _shard_strings(job):  # pylint: disable=too-many-locals,too-many-branches
     return stats
 
 
+def _history_cases():
+    """One-byte and two-byte list containers with a fallback, paired; numbers below 0x100 that are unknown in both
+    spaces of a pair are parsed in one space and then in the other (both orders, different numbers)."""
+    lists = _cat('list')
+    narrow = [name for name, con in sorted(lists.items()) if con.width == 1 and con.fallback][:4]
+    wide = [name for name, con in sorted(lists.items()) if con.width == 2 and con.fallback][:6]
+    cases = []
+    for one in narrow:
+        for two in wide:
+            free = [code for code in range(0x100) if code not in lists[one].members and code not in lists[one].skip
+                    and code not in lists[two].members and code not in lists[two].skip
+                    and code not in lists[one].grease and code not in lists[two].grease]
+            if len(free) < 4:
+                continue
+            picks = [free[0], free[len(free) // 3], free[2 * len(free) // 3], free[-1]]
+            cases.append({'kind': 'list-history', 'steps': [[one, [picks[0], picks[1]]], [two, [picks[0], picks[1], picks[0]]]]})
+            cases.append({'kind': 'list-history', 'steps': [[two, [picks[2], picks[3]]], [one, [picks[2], picks[3], picks[2]]]]})
+    return cases
+
+
+def _shard_history(_job_arg):
+    stats = Stats()
+    for case in _history_cases():
+        stats.evaluations += 1
+        stats.labels['list-history'] += 1
+        stats.nontriv(('list-history', repr(case['steps'])))
+        _record(stats, check_case(case), case)
+    return stats
+
+
 def _job(job):
-    return {'codes': _shard_codes, 'lists': _shard_lists, 'strings': _shard_strings}[job[0]](job[1])
+    return {'codes': _shard_codes, 'lists': _shard_lists, 'strings': _shard_strings,
+            'history': _shard_history}[job[0]](job[1])
 
 
 def _split(total, parts):
@@ -1422,6 +1461,7 @@ def run(ctx):  # pylint: disable=too-many-locals,too-many-branches,too-many-stat
     # 4. strings and the alias rule
     for part in ('alone', 'names', 'host-keys', 'alias', 'observed-hello'):
         jobs.append(('strings', (part, ctx.derive_seed('strings', part))))
+    jobs.append(('history', None))
     # big jobs first
     order = sorted(range(len(jobs)), key=lambda i: -_job_weight(jobs[i]))
     stats = pool.run_shards(_job, [jobs[i] for i in order])
